@@ -113,6 +113,10 @@ structure Faults where
   /-- `die()` of the old instance raises: `die` is in `__firewalled__`, the exception is logged
       and swallowed, so this has no effect on `unload` / `reload` -/
   dieRaises : Bool := false
+  /-- the module says `deprecated = True` -/
+  deprecated : Bool := false
+  /-- `load --deprecated` (and the start-up loader): `ignoreDeprecation=True` -/
+  ignoreDeprecation : Bool := false
 deriving DecidableEq, Repr
 
 inductive Reply where
@@ -139,6 +143,7 @@ def load (ord : Ord) (cbs : Cbs) (name : Name) (avail : Option Plugin) (f : Faul
     | some p =>
       if f.importError then (.error "no plugin", cbs)
       else if f.importOther then (.exception, cbs)
+      else if f.deprecated && !f.ignoreDeprecation then (.error "deprecated", cbs)
       else if f.ctorRaises then (.exception, cbs)
       else
         match addCallback ord cbs p with
@@ -179,6 +184,10 @@ def reload (ord : Ord) (cbs : Cbs) (name : Name) (avail : Option Plugin) (f : Fa
       match readd ord good bad with
       | .ok cbs' => (.exception, cbs')
       | .error (_, cbs') => (.exception, cbs')
+    else if f.deprecated then                               -- `Deprecated` is an `ImportError` (no `--deprecated` here)
+      match readd ord good bad with
+      | .ok cbs' => (.error "no plugin", cbs')
+      | .error (_, cbs') => (.exception, cbs')
     else if f.ctorRaises then (.exception, good)            -- old instance dead, new one never built
     else
       match avail with
@@ -203,6 +212,88 @@ def exec (ord : Ord) (cbs : Cbs) : Cmd → Reply × Cbs
 def runCmds (cbs : Cbs) : List (Ord × Cmd) → Cbs
   | [] => cbs
   | (ord, c) :: cs => runCmds (exec ord cbs c).2 cs
+
+/-! ### the persisted flags `supybot.plugins.<Name>` and the start-up loader -/
+
+/-- `supybot.plugins.<Name>` in registration order -/
+abbrev Flags := List (Name × Bool)
+
+def hasFlag (fl : Flags) (n : Name) : Bool := fl.any fun x => x.1 == n
+
+/-- `conf.registerPlugin(name, value)`: registers the flag (default `False`) when it is new; sets it
+when a value is given -/
+def registerPlugin (fl : Flags) (n : Name) (v : Option Bool) : Flags :=
+  let fl' := if hasFlag fl n then fl else fl ++ [(n, false)]
+  match v with
+  | none => fl'
+  | some b => fl'.map fun x => if x.1 == n then (x.1, b) else x
+
+structure Bot where
+  cbs : Cbs
+  flags : Flags
+
+/-- `Owner.load` with its effects on the configuration: `loadPluginClass` registers the flag as soon
+as the constructor has run; a successful load sets it -/
+def loadB (ord : Ord) (b : Bot) (name : Name) (avail : Option Plugin) (f : Faults) : Reply × Bot :=
+  let r := load ord b.cbs name avail f
+  let built : Bool :=          -- did `loadPluginClass` get past the constructor?
+    !(getCallback b.cbs (stripPy name)).isSome && avail.isSome && !f.importError && !f.importOther &&
+    !(f.deprecated && !f.ignoreDeprecation) && !f.ctorRaises
+  match avail with
+  | some p =>
+    let fl := if built then registerPlugin b.flags p.name none else b.flags
+    (r.1, { cbs := r.2, flags := if r.1 = .success then registerPlugin fl p.name (some true) else fl })
+  | none => (r.1, { cbs := r.2, flags := b.flags })
+
+/-- `Owner.unload`: the flag of the plugin found is cleared before it is removed -/
+def unloadB (b : Bot) (name : Name) (f : Faults) : Reply × Bot :=
+  let r := unload b.cbs name f
+  let fl :=
+    if isOwnerName name then b.flags
+    else match getCallback b.cbs name with
+      | none => b.flags
+      | some old => registerPlugin b.flags old.name (some false)
+  (r.1, { cbs := r.2, flags := fl })
+
+def reloadB (ord : Ord) (b : Bot) (name : Name) (avail : Option Plugin) (f : Faults) : Reply × Bot :=
+  let r := reload ord b.cbs name avail f
+  (r.1, { cbs := r.2, flags := b.flags })      -- the flag exists already and is left alone
+
+/-- what the start-up loader needs to know about the world -/
+structure Env where
+  /-- `loadPluginModule(name)` finds this plugin -/
+  disk : Name → Option Plugin
+  /-- what goes wrong when that plugin is imported / built -/
+  faults : Name → Faults
+  /-- `supybot.commands.defaultPlugins.importantPlugins` -/
+  important : List Name
+  /-- `supybot.plugins.alwaysLoadImportant` -/
+  alwaysLoadImportant : Bool
+
+def isUpperFirst (n : Name) : Bool :=
+  match n with
+  | c :: _ => 'A' ≤ c && c ≤ 'Z'
+  | [] => false
+
+/-- one iteration of `Owner._loadPlugins`: every failure is logged and swallowed -/
+def startupOne (ord : Ord) (env : Env) (cbs : Cbs) (x : Name × Bool) : Cbs :=
+  if (getCallback cbs x.1).isSome then cbs
+  else
+    let want := x.2 || (env.important.contains x.1 && env.alwaysLoadImportant)
+    if want && isUpperFirst x.1 then
+      (load ord cbs x.1 (env.disk x.1) { env.faults x.1 with ignoreDeprecation := true }).2
+    else cbs
+
+/-- `supybot.plugins` is an alphabetically ordered group: `getValues` sorts the names (code points) -/
+def insertFlag (x : Name × Bool) : Flags → Flags
+  | [] => [x]
+  | y :: ys => if x.1 ≤ y.1 then x :: y :: ys else y :: insertFlag x ys
+
+def sortedFlags (fl : Flags) : Flags := fl.foldr insertFlag []
+
+/-- `Owner._loadPlugins(irc)` (run when a network is connected) -/
+def startup (ord : Ord) (env : Env) (b : Bot) : Bot :=
+  { b with cbs := (sortedFlags b.flags).foldl (startupOne ord env) b.cbs }
 
 /-! ### several networks: every `Irc` object refers to one and the same list object
 
